@@ -153,8 +153,11 @@ func (m *MerkleBlock) calcBlock(block *bchutil.Block) *wire.MsgMerkleBlock {
 		height++
 	}
 
-	// Build the depth-first partial merkle tree.
-	m.traverseAndBuild(height, 0)
+	// Build the depth-first partial merkle tree.  A block without
+	// transactions has no tree (and nothing to index).
+	if m.numTx > 0 {
+		m.traverseAndBuild(height, 0)
+	}
 
 	// Create and return the merkle block.
 	msgMerkleBlock := wire.MsgMerkleBlock{
